@@ -1,5 +1,5 @@
 """C10 — redirections (DESIGN §3 C10)."""
-from rulelib import SHIPPED, call_sites, cfg_of, defs_of, owner
+from rulelib import SHIPPED, call_sites, cfg_of, defs_of, owner, short
 from dataflow import base_local, borrow_root, field_stores, flow_back, origins
 from facts import canon
 
@@ -205,3 +205,77 @@ def run(prog, chk):
                 chk.fail("R10.4", hb.name, "writer-not-dropped", "a path from write_all to Ok(reader) keeps the writer open: the reader never sees EOF (%s)" % p)
             else:
                 chk.ok("R10.4", "writer-dropped", "writer dropped on every path from write_all to Ok", function=hb.name)
+    here_queue_rule(prog, chk)
+
+
+HERE_QUEUE_FIELD = "current_here_tags"
+BACK_ACCESS = ("[T]::last", "[T]::last_mut", "alloc::vec::Vec::pop", "[T]::split_last", "[T]::split_last_mut")
+FRONT_ACCESS = ("[T]::first", "[T]::first_mut", "alloc::vec::Vec::remove", "core::ops::index::Index::index", "core::ops::index::IndexMut::index_mut")
+PASSIVE = ("core::option::Option::unwrap", "core::option::Option::expect", "core::ops::deref::Deref::deref", "core::ops::deref::DerefMut::deref_mut",
+           "core::option::Option::as_mut", "core::option::Option::as_ref")
+
+
+def here_queue_rule(prog, chk):
+    """R10.6: pending here-documents form a FIFO: tags are appended when `<<TAG` is seen and the document being read is the one at
+    the FRONT (it is dequeued with remove(0) when its end tag is found). Everything that governs the body in progress — tab
+    stripping, the end tag, whether the delimiter was quoted — must be read from the front element. An access to the BACK of the
+    queue (last / last_mut / pop) is legitimate only in the declaration phase, to attach the tokens that follow the newest `<<TAG`."""
+    from dataflow import flow_back, forward_taint
+    chk.rule("R10.6", "the here-document queue is read at its front for the document in progress (remove_tabs / tag / quoting); back accesses "
+                      "only append pending tokens to the most recently declared tag")
+    nfront = nback = 0
+    for b in prog.all_bodies({"brush_parser"}):
+        fn = owner(b.name)
+        if "tokenizer" not in fn:
+            continue
+        d = defs_of(b)
+        for bb, t in b.calls():
+            cal = t.callee or ""
+            bc = t.best_callee() or cal
+            if not t.args:
+                continue
+            recv = flow_back(b, d, t.args[0])
+            if not any(HERE_QUEUE_FIELD in f.field_path() for f in recv):
+                continue
+            if cal in FRONT_ACCESS or bc in FRONT_ACCESS:
+                # positional: the index must be the constant 0
+                if len(t.args) > 1:
+                    iv = [g for g in flow_back(b, d, t.args[1]) if g.kind == 'const']
+                    if iv and all(g.node.value == 0 for g in iv):
+                        nfront += 1
+                        chk.ok("R10.6", "front:%s@%s" % (short(bc), short(fn)), "front element of the queue", function=fn)
+                    else:
+                        chk.fail("R10.6", fn, "here-queue-indexed-off-front", "%s accesses current_here_tags at a position other than the constant 0 (line %s)" % (fn, t.line))
+                else:
+                    nfront += 1
+                    chk.ok("R10.6", "front:%s@%s" % (short(bc), short(fn)), "front element of the queue", function=fn)
+            elif cal in BACK_ACCESS or bc in BACK_ACCESS:
+                nback += 1
+                tl = forward_taint(b, {t.dest.local}) if t.dest is not None else set()
+                fields = set()
+                escapes = []
+                for bl in b.blocks:
+                    for st in bl.stmts:
+                        if st.kind != 'a':
+                            continue
+                        pls = [st.place] + ([st.rv.place] if st.rv.place is not None else []) + [o.place for o in st.rv.ops if o.place is not None]
+                        for pl in pls:
+                            if pl.local in tl:
+                                for pr in pl.proj:
+                                    if pr[0] == 'f' and "HereTag" in canon(pr[2]):
+                                        fields.add(pr[3])
+                    tt = bl.term
+                    if tt.kind == "call" and any(a.place is not None and a.place.local in tl for a in tt.args):
+                        c2 = tt.best_callee() or tt.callee or ""
+                        if c2 not in PASSIVE and not c2.endswith(("Vec::push", "Try>::branch", "Option::is_some", "Option::is_none")) and tt is not t:
+                            escapes.append(c2)
+                other = fields - {"pending_tokens_after"}
+                if other or escapes:
+                    chk.fail("R10.6", fn, "here-queue-read-at-back:" + (sorted(other)[0] if other else short(escapes[0])),
+                             "%s takes the *last* pending here-document (%s at line %s) and %s: the document being read is the first one in the queue, so with two "
+                             "here-documents on one line (`cmd <<A <<-B`) the wrong document's form decides tab stripping / termination"
+                             % (fn, short(bc), t.line, ("reads " + ", ".join(sorted(other))) if other else ("passes it to " + short(escapes[0]))))
+                else:
+                    chk.ok("R10.6", "back-appends-pending@%s" % short(fn), "back access only appends pending tokens to the newest tag", function=fn)
+    chk.floor("R10.6", "front accesses to the here-document queue", nfront, 2)
+    chk.note("here_queue_back_accesses", nback)
